@@ -7,6 +7,6 @@ git -C /repo apply "$patch" || { echo "patch does not apply"; exit 2; }
 ./check "$id" "$tier" > /tmp/mutant.$$.out 2>&1; rc=$?
 git -C /repo apply -R "$patch"
 if [ -n "$(git -C /repo status --porcelain)" ]; then echo "WARNING: /repo not clean after revert"; git -C /repo status --porcelain; fi
-grep -E "^(VIOLATION|KNOWN-FINDING|INCONCLUSIVE|HELD|VIOLATED)" /tmp/mutant.$$.out | cut -c1-400 | head -8
+grep -E "^(VIOLATION|INCONCLUSIVE|HELD|VIOLATED)" /tmp/mutant.$$.out | cut -c1-400 | head -8
 rm -f /tmp/mutant.$$.out
 echo "exit=$rc"
